@@ -6,7 +6,7 @@
    funds and history of calls (accepted or rejected).
    Models: coq/model/Wl.v (plain, flex), coq/model/WlTiered.v (tiered, tiered-flex,
    immutable); they follow the repaired code of the `fix:` commits 8ef08b3 and 034dca7. *)
-From LP Require Import Wl WlTiered Consts WlSchedProofs WlMemProofs WlTieredProofs.
+From LP Require Import Wl WlTiered Consts WlSchedProofs WlMemProofs WlTieredProofs WlTierInvProofs.
 Import ListNotations.
 Local Open Scope N_scope.
 
@@ -126,6 +126,131 @@ Theorem C11_history_accounting :
   paid = tiers (w_limit w) * 100000000 /\ out = paid.
 Proof. exact history_accounting. Qed.
 
+
+(* ================= tiered and tiered-flex whitelists ================= *)
+(* state: WHITELIST_STAGES as a list of ((stage id, address), mint count) entries,
+   MEMBER_COUNT as a map stage id -> count.  `tkeys` are the stored (stage, address)
+   pairs, `scount k` the number of entries stored for stage k. *)
+
+(* creation: no (stage, address) pair stored twice; num_members = number of entries;
+   nothing is stored at a stage id >= #stages; every stage's member_count = the number
+   of entries stored for it; count <= limit <= 30000; at most 3 stages; the limit is the
+   requested one.  (Repaired code: duplicates and surplus member lists are not counted.) *)
+Theorem C11_tiered_created_consistent :
+  forall (valid : addr -> bool) self flex e m w ms,
+  t_inst valid flex self e m = Ok (w, ms) ->
+  (NoDup (tkeys (t_mem w)) /\ t_num w = nlen (t_mem w) /\
+   (forall p, In p (t_mem w) -> e_stage p < nlen (t_stages w)) /\
+   (forall k, k < nlen (t_stages w) -> c_get k (t_cnt w) = scount k (t_mem w)) /\
+   t_num w <= t_limit w /\ t_limit w <= T_MAX_MEMBERS (t_flex w) /\ nlen (t_stages w) <= 3) /\
+  t_flex w = flex /\ t_limit w = ti_limit m /\ 1 <= t_limit w /\ t_stages w = ti_stages m.
+Proof. exact t_inst_inv. Qed.
+
+Theorem C11_tiered_maximum_is_30000 : forall flex, T_MAX_MEMBERS flex = 30000.
+Proof. exact t_max. Qed.
+
+(* every accepted call (add/remove members, add/remove stage, update stage, increase
+   limit, admin calls) keeps all of the above and never lowers the limit *)
+Theorem C11_tiered_count_and_capacity_step :
+  forall (valid : addr -> bool) self e o w w' ms,
+  t_exec valid self e o w = Ok (w', ms) ->
+  NoDup (tkeys (t_mem w)) /\ t_num w = nlen (t_mem w) /\
+   (forall p, In p (t_mem w) -> e_stage p < nlen (t_stages w)) /\
+   (forall k, k < nlen (t_stages w) -> c_get k (t_cnt w) = scount k (t_mem w)) /\
+   t_num w <= t_limit w /\ t_limit w <= T_MAX_MEMBERS (t_flex w) /\ nlen (t_stages w) <= 3 ->
+  (NoDup (tkeys (t_mem w')) /\ t_num w' = nlen (t_mem w') /\
+   (forall p, In p (t_mem w') -> e_stage p < nlen (t_stages w')) /\
+   (forall k, k < nlen (t_stages w') -> c_get k (t_cnt w') = scount k (t_mem w')) /\
+   t_num w' <= t_limit w' /\ t_limit w' <= T_MAX_MEMBERS (t_flex w') /\ nlen (t_stages w') <= 3) /\
+  t_flex w' = t_flex w /\ t_limit w <= t_limit w'.
+Proof. exact t_exec_inv. Qed.
+
+(* in a consistent state the per-stage member counts add up to num_members *)
+Theorem C11_tiered_stage_counts_sum_to_total :
+  forall w,
+  NoDup (tkeys (t_mem w)) /\ t_num w = nlen (t_mem w) /\
+   (forall p, In p (t_mem w) -> e_stage p < nlen (t_stages w)) /\
+   (forall k, k < nlen (t_stages w) -> c_get k (t_cnt w) = scount k (t_mem w)) /\
+   t_num w <= t_limit w /\ t_limit w <= T_MAX_MEMBERS (t_flex w) /\ nlen (t_stages w) <= 3 ->
+  sumN (length (t_stages w)) (fun j => c_get j (t_cnt w)) = t_num w.
+Proof. exact (counts_sum_to_total (fun _ => true) 0). Qed.
+
+(* StageMemberInfo.is_member is true exactly for stored (stage, address) pairs; the
+   Stage query reports the stored number; HasMember = true only for a stored member *)
+Theorem C11_tiered_is_member_iff_stored :
+  forall (valid : addr -> bool) k a w b,
+  tq_stage_member valid k a w = Ok b -> (b = true <-> In (k, a) (tkeys (t_mem w))).
+Proof. exact tq_stage_member_iff. Qed.
+
+Theorem C11_tiered_has_member_only_stored :
+  forall (valid : addr -> bool) now a w,
+  tq_has valid now a w = Ok true -> exists k, k < nlen (t_stages w) /\ In (k, a) (tkeys (t_mem w)).
+Proof. exact tq_has_stored. Qed.
+
+(* add_members to stage k: afterwards stage k holds exactly its old members and the listed
+   addresses (existing ones are skipped, never counted twice); other stages untouched *)
+Theorem C11_tiered_add_effect :
+  forall (valid : addr -> bool) self e k l w w' ms,
+  t_exec valid self e (TAdd k l) w = Ok (w', ms) ->
+  NoDup (tkeys (t_mem w)) /\ t_num w = nlen (t_mem w) /\
+   (forall p, In p (t_mem w) -> e_stage p < nlen (t_stages w)) /\
+   (forall k, k < nlen (t_stages w) -> c_get k (t_cnt w) = scount k (t_mem w)) /\
+   t_num w <= t_limit w /\ t_limit w <= T_MAX_MEMBERS (t_flex w) /\ nlen (t_stages w) <= 3 ->
+  k < nlen (t_stages w) /\
+  (forall x, In (k, x) (tkeys (t_mem w')) <-> In (k, x) (tkeys (t_mem w)) \/ In x (map fst l)) /\
+  (forall j, j <> k -> scount j (t_mem w') = scount j (t_mem w)).
+Proof. exact t_exec_add_effect. Qed.
+
+(* remove_members from stage k: accepted only if every listed address is stored there and
+   none is listed twice; exactly those disappear; the total drops by their number *)
+Theorem C11_tiered_remove_requires_members :
+  forall (valid : addr -> bool) self e k l w w' ms,
+  t_exec valid self e (TRemove k l) w = Ok (w', ms) ->
+  NoDup (tkeys (t_mem w)) /\ t_num w = nlen (t_mem w) /\
+   (forall p, In p (t_mem w) -> e_stage p < nlen (t_stages w)) /\
+   (forall k, k < nlen (t_stages w) -> c_get k (t_cnt w) = scount k (t_mem w)) /\
+   t_num w <= t_limit w /\ t_limit w <= T_MAX_MEMBERS (t_flex w) /\ nlen (t_stages w) <= 3 ->
+  NoDup l /\ (forall x, In x l -> In (k, x) (tkeys (t_mem w))) /\
+  (forall x, In (k, x) (tkeys (t_mem w')) <-> In (k, x) (tkeys (t_mem w)) /\ ~ In x l) /\
+  t_num w' + nlen l = t_num w /\
+  (forall j, j <> k -> scount j (t_mem w') = scount j (t_mem w)).
+Proof. exact t_exec_remove_effect. Qed.
+
+(* fees: as for the plain whitelist *)
+Theorem C11_tiered_creation_fee_exact_and_forwarded :
+  forall (valid : addr -> bool) self flex e m w ms,
+  t_inst valid flex self e m = Ok (w, ms) ->
+  let fee := tiers (t_limit w) * 100000000 in
+  e_funds e = [mkCoin NATIVE fee] /\
+  ms = [Burn NATIVE (fee / 2); FundPool self NATIVE (fee - fee / 2)] /\ sum_out ms = fee.
+Proof. exact t_inst_fee. Qed.
+
+Theorem C11_tiered_call_fee_exact_and_forwarded :
+  forall (valid : addr -> bool) self e o w w' ms,
+  t_exec valid self e o w = Ok (w', ms) ->
+  match o with
+  | TIncrease n =>
+      let fee := (tiers n - tiers (t_limit w)) * 100000000 in
+      t_limit w < n /\ t_limit w' = n /\ may_pay (e_funds e) NATIVE = Ok fee /\ sum_out ms = fee /\
+      (ms = [] \/ ms = [Burn NATIVE (fee / 2); FundPool self NATIVE (fee - fee / 2)])
+  | _ => ms = [] /\ t_limit w' = t_limit w
+  end.
+Proof. exact t_exec_fee. Qed.
+
+(* the history theorem for the tiered kinds *)
+Theorem C11_tiered_history_accounting :
+  forall (valid : addr -> bool) self flex e m w0 ms0 (h : list (env * top)),
+  t_inst valid flex self e m = Ok (w0, ms0) ->
+  let '(w, paid, out) := t_arun valid self h (w0, pay_of e, sum_out ms0) in
+  w = t_run valid self h w0 /\
+  NoDup (tkeys (t_mem w)) /\ t_num w = nlen (t_mem w) /\
+  (forall p, In p (t_mem w) -> e_stage p < nlen (t_stages w)) /\
+  (forall k, k < nlen (t_stages w) -> c_get k (t_cnt w) = scount k (t_mem w)) /\
+  sumN (length (t_stages w)) (fun j => c_get j (t_cnt w)) = t_num w /\
+  t_num w <= t_limit w /\ t_limit w <= 30000 /\ t_limit w0 <= t_limit w /\ nlen (t_stages w) <= 3 /\
+  paid = tiers (t_limit w) * 100000000 /\ out = paid.
+Proof. exact t_history_accounting. Qed.
+
 (* ================= whitelist-immutable ================= *)
 Theorem C11_immutable_consistent :
   forall funds ms l c,
@@ -177,6 +302,38 @@ Example C11_ex_limit_before_skip :
   end.
 Proof. vm_compute. reflexivity. Qed.
 
+
+(* the shapes of the repaired tiered defects: [aaa, aaa] is one member; a surplus member
+   list is not counted; add_stage [bbb, bbb, ccc] stores and counts two *)
+Definition ex_stage (i : N) : stage := mkStage (G + 100 + 100 * i) (G + 200 + 100 * i) 2 0.
+Example C11_ex_tiered_flex_duplicates_and_surplus :
+  match t_inst ex_valid true 5 (ex_env 100000000)
+          (mkTimsg [[(100, 1); (100, 3)]; [(101, 1); (102, 1)]] [ex_stage 0] 10 None [60] true) with
+  | Ok (w, _) =>
+      (t_num w, c_get 0 (t_cnt w), t_mem w) = (1, 1, [(0, 100, 3)]) /\
+      match t_exec ex_valid 5 (mkEnv (G + 2) 60 []) (TAddStage (ex_stage 1) [(101, 1); (101, 2); (102, 1)]) w with
+      | Ok (w', _) => (t_num w', c_get 1 (t_cnt w'), scount 1 (t_mem w')) = (3, 2, 2)
+      | Err => False
+      end
+  | Err => False
+  end.
+Proof. vm_compute. split; reflexivity. Qed.
+
+Example C11_ex_tiered_remove_stage :
+  match t_inst ex_valid false 5 (ex_env 100000000)
+          (mkTimsg [[(100, 1); (101, 1)]; [(101, 1); (102, 1)]; [(103, 1)]]
+                   [ex_stage 0; ex_stage 1; ex_stage 2] 10 None [60] true) with
+  | Ok (w0, ms0) =>
+      let '(w, paid, out) :=
+        t_arun ex_valid 5 [(mkEnv (G + 2) 60 [], TRemoveStage 1);
+                           (mkEnv (G + 3) 60 [], TAdd 0 [(101, 1); (104, 1)]);
+                           (mkEnv (G + 4) 61 [mkCoin NATIVE 100000000], TIncrease 1001)]
+               (w0, pay_of (ex_env 100000000), sum_out ms0) in
+      (t_num w, nlen (t_stages w), c_get 0 (t_cnt w), t_limit w, paid, out) = (3, 1, 3, 1001, 200000000, 200000000)
+  | Err => False
+  end.
+Proof. vm_compute. reflexivity. Qed.
+
 Example C11_ex_immutable :
   imm_inst [] [101; 100; 101] = Ok ([100; 101], 2) /\ imm_inst [] [] = Err.
 Proof. vm_compute. split; reflexivity. Qed.
@@ -193,5 +350,16 @@ Print Assumptions C11_creation_fee_exact_and_forwarded.
 Print Assumptions C11_tiers_is_started_thousands.
 Print Assumptions C11_call_fee_exact_and_forwarded.
 Print Assumptions C11_history_accounting.
+Print Assumptions C11_tiered_created_consistent.
+Print Assumptions C11_tiered_maximum_is_30000.
+Print Assumptions C11_tiered_count_and_capacity_step.
+Print Assumptions C11_tiered_stage_counts_sum_to_total.
+Print Assumptions C11_tiered_is_member_iff_stored.
+Print Assumptions C11_tiered_has_member_only_stored.
+Print Assumptions C11_tiered_add_effect.
+Print Assumptions C11_tiered_remove_requires_members.
+Print Assumptions C11_tiered_creation_fee_exact_and_forwarded.
+Print Assumptions C11_tiered_call_fee_exact_and_forwarded.
+Print Assumptions C11_tiered_history_accounting.
 Print Assumptions C11_immutable_consistent.
 Print Assumptions C11_immutable_includes_iff.
